@@ -145,6 +145,11 @@ Theorem C04_push_rm16 : forall c i s,
   end.
 Proof. exact push_rm16_exact. Qed.
 
+Theorem C04_push_pop_r32_rejected : forall c i s,
+  (i_code i = C_Push_r32 -> instr_push_r32 c i s = (Err EFatal, s)) /\
+  (i_code i = C_Pop_r32 -> instr_pop_r32 c i s = (Err EFatal, s)).
+Proof. exact push_pop_r32_rejected. Qed.
+
 Print Assumptions cond_matches_sdm.
 Print Assumptions C04_push_is_hardware_conjugated.
 Print Assumptions C04_pop_is_hardware_conjugated.
@@ -159,3 +164,4 @@ Print Assumptions C04_push_r16.
 Print Assumptions C04_pop_r16.
 Print Assumptions C04_push_imm16.
 Print Assumptions C04_push_rm16.
+Print Assumptions C04_push_pop_r32_rejected.
